@@ -47,12 +47,14 @@ LINS = [
 
 
 # Placement policy.  A program is generated either in EXACT mode (dyadic offsets: coplanar faces, vertices on
-# faces, edges in face planes do occur) - then every property-carrying MeshGL source uses per-triangle faceIDs -
-# or in GENERAL-POSITION mode (coplanar face grouping allowed): every translation component is k/p with p a
-# prime that is different for each axis and each transform of the program and k not a multiple of p, so that no
-# vertex (hence no edge) of one operand lies in a face plane of another (the plane normals involved have dyadic
-# components with numerators 1 or 2).  This keeps the random stream away from the defect family of the known
-# finding property-not-interpolated:corpus-tet-edge-in-cube-face, whose witness runs in the fixed corpus.
+# faces, edges in face planes, crossing edges do occur) - then no MeshGL source carries property channels (face
+# IDs of all three kinds still do) - or in GENERAL-POSITION mode (property channels and coplanar face grouping
+# allowed): every translation component is k/p with p a prime that is different for each axis and each transform
+# of the program and k not a multiple of p, so that no vertex (hence no edge) of one operand lies in a face plane
+# of another (the plane normals involved have dyadic components with numerators 1 or 2).  This keeps the random
+# stream away from the defect family of the known findings property-not-interpolated:corpus-tet-edge-in-cube-face
+# and :corpus-crossing-edges-shared-prop (CollapseEdge carries property vertices over by index; it needs
+# coincident new vertices, i.e. exact coincidences); both witnesses run in the fixed corpus.
 PRIMES = [7, 11, 13, 17, 19, 23, 29, 31, 37, 41, 43, 47, 53, 59, 61, 67, 71, 73, 79, 83, 89, 97]
 
 
@@ -93,8 +95,8 @@ class Gen:
             w = rng.randrange(5)
             if w <= 2:
                 nprop, fm = rng.randrange(0, 4), rng.randrange(3)
-                if self.exact and nprop > 0:
-                    fm = 2
+                if self.exact:
+                    nprop = 0       # exact coincidences never meet property channels in the random stream (see policy above)
                 p += ["mesh", str(nprop), str(fm), str(rng.randrange(1000))]
             elif w == 3:
                 p += ["asorig"]
@@ -408,16 +410,57 @@ def related_check(case, prog):
     return verdicts_to_violations(chk, chk["py"])
 
 
-def run_checker(exe, lines, timeout=1500):
-    rc, out, err = vp.sh2([exe], input="\n".join(lines) + "\n", timeout=timeout)
-    codes, errs = {}, []
-    for l in out.splitlines():
-        w = l.split()
-        if w and w[0] == "V":
-            codes[w[1]] = int(w[2])
-        elif w and w[0] == "ERR":
-            errs.append(l)
-    return rc, codes, errs
+def run_checker(exe, lines, timeout=1500, workers=1):
+    """Feed checker input to an extracted checker build.  The input is cut at RESET lines (cases are independent) into
+    `workers` chunks run concurrently.  Never raises: a malformed, missing or error line, a non-zero exit or a timeout
+    is returned in `errs` (the caller turns it into cx.broke); returns (rc, {tid: code}, errs)."""
+    chunks, cur = [], []
+    for l in lines:
+        if l == "RESET" and cur:
+            chunks.append(cur)
+            cur = []
+        cur.append(l)
+    if cur:
+        chunks.append(cur)
+    workers = max(1, min(workers, len(chunks)))
+    groups = [[] for _ in range(workers)]
+    sizes = [0] * workers
+    for ch in sorted(chunks, key=len, reverse=True):          # deterministic greedy balancing
+        g = sizes.index(min(sizes))
+        groups[g] += ch
+        sizes[g] += sum(len(x) for x in ch)
+
+    def one(g):
+        if not g:
+            return 0, "", ""
+        return vp.sh2([exe], input="\n".join(g) + "\n", timeout=timeout)
+
+    if workers == 1:
+        results = [one(groups[0])]
+    else:
+        from concurrent.futures import ThreadPoolExecutor
+        with ThreadPoolExecutor(max_workers=workers) as ex:
+            results = list(ex.map(one, groups))
+    codes, errs, rc_all = {}, [], 0
+    for rc, out, err in results:
+        if rc != 0:
+            rc_all = rc
+            errs.append("checker exited rc=%s%s %s" % (rc, " (timeout)" if rc == 124 else "", (err or "")[-200:].replace("\n", " ")))
+        for l in out.splitlines():
+            w = l.split()
+            if not w:
+                continue
+            if w[0] == "V" and len(w) == 3 and w[2].lstrip("-").isdigit():
+                codes[w[1]] = int(w[2])
+            elif w[0] == "F" and len(w) == 3:
+                pass
+            else:
+                errs.append("malformed checker output line: %r" % l[:120])
+    want = [l.split()[1] for l in lines if l.startswith("TRI ")]
+    missing = [t for t in want if t not in codes]
+    if missing:
+        errs.append("%d of %d verdicts missing (first: %s)" % (len(missing), len(want), missing[0]))
+    return rc_all, codes, errs
 
 
 # ------------------------------------------------------------------ correspondence
@@ -499,6 +542,10 @@ def run(cx):
         "compose-refine": "cube 1 1 1 cube 1 1 1 tr 1 0 0 0 1 0 0 0 1 12/4 0 0 add refine 2",
         # witness of the known finding: colinear collapse keeps a property vertex interpolated for the removed position
         "tet-edge-in-cube-face": "tet cube 1 1 3 mesh 1 0 860 tr 1 0 0 0 1 0 0 0 1 -4/8 0 4/4 add",
+        # second witness of the same CollapseEdge carry-over defect, other branch: two edges of two instances cross exactly; the
+        # short-edge collapse of the coincident crossing vertices re-points face 101's corner (property vertex shared with face 102
+        # at the removed vertex) to face 102's property vertex of the kept one (2.0 becomes -2.0625)
+        "crossing-edges-shared-prop": "tet mesh 1 2 655 dup tr 1 0 0 0 -1 0 0 0 1 -1/8 2/4 0/4 add",
     }
     for name, p in corpus.items():
         progs["c-" + name] = p.split()
@@ -586,7 +633,7 @@ def run(cx):
 
     # ---- oracle pass: the extracted checker (zarith build) judges every triangle of every output; the Python mirror
     # must agree everywhere; the pure build must agree on a deterministic budgeted subset and on every rejection
-    all_lines, pure_lines, pure_budget, pure_cost = [], [], cx.pick(1.2e4, 4.0e5), 0.0
+    all_lines, pure_lines, pure_budget, pure_cost = [], [], cx.pick(1.2e4, 1.2e5), 0.0
     for k in progs:
         j = res.get(k)
         if j is None or "error" in j:
@@ -603,7 +650,7 @@ def run(cx):
     rcb, codes_big, errs_b = run_checker(chk["big"], all_lines)
     cx.log("extracted checker (zarith build) done")
     if rcb != 0 or errs_b:
-        cx.broke("oracle:C07/extracted-checker", "extracted checker failed rc=%s %s" % (rcb, errs_b[:2]))
+        cx.broke("oracle:C07/extracted-checker", "zarith build of the extracted checker failed: rc=%s %s" % (rcb, "; ".join(errs_b[:3])))
     for k in progs:                       # every rejection is re-judged by the pure build
         j = res.get(k)
         c = j.get("_chk") if j else None
@@ -611,10 +658,11 @@ def run(cx):
             rej = set(tid for tid, *_ in c["tris"] if codes_big.get(tid) not in (0, 7))
             if rej:
                 pure_lines += [l for l in c["lines"] if not l.startswith("TRI") or l.split()[1] in rej]
-    rcp, codes_pure, errs_p = run_checker(chk["pure"], pure_lines)
+    # the pure build costs ~10 ms per triangle: its cases are spread over several processes
+    rcp, codes_pure, errs_p = run_checker(chk["pure"], pure_lines, timeout=cx.pick(600, 1500), workers=min(8, vp.NPROC))
     cx.log("extracted checker (pure build) done: %d triangles" % len(codes_pure))
     if rcp != 0 or errs_p:
-        cx.broke("oracle:C07/extracted-checker-pure", "pure checker failed rc=%s %s" % (rcp, errs_p[:2]))
+        cx.broke("oracle:C07/pure-checker", "pure (inductive Z) build of the extracted checker failed: rc=%s %s" % (rcp, "; ".join(errs_p[:3])))
     oracle_stats = {"triangles_judged_by_extracted_checker": len(codes_big), "triangles_rejudged_by_pure_extraction": len(codes_pure),
                     "python_mirror_disagreements": 0, "pure_vs_zarith_disagreements": 0}
     for tid, c in codes_pure.items():
@@ -648,6 +696,18 @@ def run(cx):
         """drop unary operations (transforms, mirror, refine, asorig, mesh wrapping, decompose) while the same kind of
         violation persists; the result is the canonical replay the violation key is derived from"""
         ops = split_ops(prog)
+        # shortest prefix that still leaves a result on the stack and shows the same kind
+        depth, cuts = 0, []
+        for n, o in enumerate(ops):
+            depth += {"cube": 1, "tet": 1, "sphere": 1, "cyl": 1, "dup": 1, "add": -1, "sub": -1, "int": -1, "split": -1}.get(o[0], 0)
+            if o[0] == "compose":
+                depth -= int(o[1]) - 1
+            if depth >= 1 and n + 1 < len(ops):
+                cuts.append(n + 1)
+        for n in cuts:
+            if kind in kinds_of([t for o in ops[:n] for t in o]):
+                ops = ops[:n]
+                break
         changed, trials = True, 0
         while changed and trials < 60:
             changed = False
